@@ -8,7 +8,8 @@
        headers set by Authenticate)
      internal/proxy/reverse_proxy.go:107-129 (handler order), 137-163 (Director), 199-211 (signing
        handler: HMAC then RSA), 219-229 (singleJoiningSlash), 232-249 (deleteCookie)
-     internal/proxy/options.go:52-79 (published certs: {key id: public key})
+     internal/proxy/options.go:52-79 (published certs: {key id: public key}), 203-221 (parseEnvironment)
+     internal/proxy/proxy_config.go:213-230, 427-445 (per-upstream HMAC key: lookup, cleanWhiteSpace, generateHmacAuth)
      net/http/httputil/reverseproxy.go (go1.23.5) ServeHTTP + removeHopByHopHeaders + hopHeaders
      net/http transfer.go (go1.23.5): outgoingLength / shouldSendContentLength — the Content-Length
        header an upstream receives is recomputed from the body, never copied from the header map
@@ -401,7 +402,7 @@ Definition env_vars (environ : list (str * str)) : list (str * str) :=
 Fixpoint env_lookup (k : str) (vars : list (str * str)) : option str :=
   match vars with [] => None | (k', v) :: t => if str_eqb k' k then Some v else env_lookup k t end.
 
-(* cleanWhiteSpace, proxy_config.go:425-428: TrimSpace, then every run of white space becomes "_"
+(* cleanWhiteSpace, proxy_config.go:427-430: TrimSpace, then every run of white space becomes "_"
    (ASCII white space here; the generator uses no other) *)
 Fixpoint collapse_ws (in_ws : bool) (s : str) : str :=
   match s with
@@ -414,7 +415,7 @@ Definition signing_key_suffix : str := [95;115;105;103;110;105;110;103;95;107;10
 
 Inductive hmac_config := HmacOff | HmacOn (key : str) | HmacConfigError.
 
-(* generateHmacAuth, proxy_config.go:430-443: exactly two ':'-separated components; the first must be a
+(* generateHmacAuth, proxy_config.go:432-445: exactly two ':'-separated components; the first must be a
    name hmacauth.DigestNameToCryptoHash accepts ([algs]: the lower-case names of the hashes linked
    into the binary — an oracle); the second is the key, byte for byte *)
 Definition generate_hmac (algs : list str) (spec : str) : hmac_config :=
@@ -422,10 +423,12 @@ Definition generate_hmac (algs : list str) (spec : str) : hmac_config :=
   | [a; secret] => if mem_str a algs then HmacOn secret else HmacConfigError
   | _ => HmacConfigError
   end.
-(* loadServiceConfigs, proxy_config.go:213-228: the key is looked up under "<Service>_signing_key" with
-   Service = cleanWhiteSpace(service) — NOT lower-cased, whereas the variable names are *)
+(* loadServiceConfigs, proxy_config.go:213-230: the key is looked up under
+   strings.ToLower(Service) ++ "_signing_key" with Service = cleanWhiteSpace(service) — lower-cased like
+   the variable names since /repo c723740 (before that commit the name was used as written and a
+   service name with an upper-case letter never found its key). ASCII case folding here. *)
 Definition hmac_of_config (algs : list str) (service : str) (environ : list (str * str)) : hmac_config :=
-  match env_lookup (clean_ws service ++ signing_key_suffix) (env_vars environ) with
+  match env_lookup (lower_ascii (clean_ws service) ++ signing_key_suffix) (env_vars environ) with
   | None => HmacOff
   | Some spec => generate_hmac algs spec
   end.
